@@ -31,11 +31,14 @@ EPS = 1e-9
 def _cases(rng, tier):
     out = []
     n = 28 if tier == "quick" else 400
-    kinds = ["convex", "concave", "holes", "anti", "tiny", "needle"]
+    kinds = ["convex", "concave", "holes", "anti", "tiny", "needle", "anti-holes"]
     for k in range(n):
         kind = kinds[k % len(kinds)]
         loops, (lat, lng, radius) = gen.rand_polygon(rng, kind=kind)
         cand = [r for r in range(16) if 0.4 <= radius / EDGE[r] <= 12]
+        if kind == "anti-holes":
+            # holes smaller than the coarse cells of the compact traversal, next to the antimeridian
+            cand = [r for r in range(16) if 6 <= radius / EDGE[r] <= 25] or cand
         if kind == "tiny":
             cand = [r for r in range(16) if 0.02 <= radius / EDGE[r] <= 2] or [15]
         out.append((loops, lat, lng, radius, rng.choice(cand) if cand else 15, kind))
@@ -58,7 +61,11 @@ def incell_cases(ctx, rng, tier):
     pts = []
     for k in range(n):
         lat = rng.choice([rng.uniform(-1.45, -0.9), rng.uniform(-0.9, 0.9), rng.uniform(0.9, 1.45)])
-        pts.append((lat, rng.uniform(-3.1, 3.1), rng.randrange(1, 13)))
+        res_ = rng.randrange(1, 13)
+        if k % 4 == 3:     # cells that straddle the antimeridian
+            pts.append((lat, rng.choice([1, -1]) * (math.pi - rng.uniform(0, 0.3) * EDGE[res_]), res_))
+        else:
+            pts.append((lat, rng.uniform(-3.1, 3.1), res_))
     a = ctx.c([f"ll2c {f2bits(la)} {f2bits(ln)} {r}" for la, ln, r in pts], tag="incell")
     cells = [int(x.split()[1], 16) for x in a if ok(x)]
     g = ctx.c([y for h in cells for y in (f"boundary {gen.hx(h)}", f"c2ll {gen.hx(h)}")], tag="incell2")
